@@ -20,7 +20,8 @@ RULE = ('Random POSIX rule triples expressible as yearly recurrence rules (both 
         'zones, keys()), and malformed definitions (missing TZID, DTSTART, TZOFFSETFROM / TZOFFSETTO, unknown component or '
         'property, unclosed component, parameters on offsets, empty input) -> ValueError.  The zone\'s locked cache is also driven '
         'under the baton scheduler.  Non-trivial = instant within 2 h of a transition or a cache re-query; distinct = (triple '
-        'class, component order, folding, rule form, probe offset).')
+        'class, component order, folding, rule form, probe offset).'
+        ' Also: one-off components in both textual orders (before the first onset the textually first STANDARD applies), first-year probes (DTSTART is an onset), sub-minute offsets, single-component definitions, every required line deleted in turn (alone / as second zone, RRULE / RDATE variants), and a fold inserted at every position of every line (a tab marker may be rejected with ValueError).')
 ASSUMPTIONS = ['POSIX evaluator (validated against glibc in C08)', 'VTIMEZONE writer in vf/tzzoo.py',
                'truth is claimed from one year after the first onset on (both components have started)']
 MANIFEST = {
